@@ -677,7 +677,17 @@ std::string sqf::parser::preprocessor::impl_default::instance::handle_macro(::sq
         "        " <<
         "    " << "\x1B[36mhandle_macro(...)\033[0m starting replace." << std::endl;
 #endif
-    return replace(runtime, original_fileinfo, m, params);
+    // A macro that is used (directly or through other macros) inside of its own expansion never ends expanding
+    if (std::find(m_macro_stack.begin(), m_macro_stack.end(), m.name()) != m_macro_stack.end())
+    {
+        m_errflag = true;
+        log(err::RecursiveMacro(original_fileinfo.to_diag_info(), std::string(m.name())));
+        return "";
+    }
+    m_macro_stack.emplace_back(m.name());
+    auto replaced = replace(runtime, original_fileinfo, m, params);
+    m_macro_stack.pop_back();
+    return replaced;
 }
 
 std::string sqf::parser::preprocessor::impl_default::instance::parse_ppinstruction(::sqf::runtime::runtime& runtime, preprocessorfileinfo& fileinfo)
